@@ -7,6 +7,16 @@ int c_islin(int nval, double thresh, double tol, int npoints,
     int ierr=0, i, k, count, start, lintype;
     double dist, vprec, vnext, vcur;
 
+    /* A series with less than 3 values cannot contain
+     * a linear stretch */
+    if(nval < 3)
+    {
+        for(i=0; i<nval; i++)
+            islin[i] = 0;
+
+        return ierr;
+    }
+
     /* initialisation */
     vprec = data[0];
     if(isnan(vprec)) vprec = thresh-1;
